@@ -27,13 +27,6 @@ Proof.
     apply copy_match_length in E. rewrite app_length, rev_length in E. unfold byte in *. lia.
 Qed.
 
-Lemma total_len_last ss last : total_len ss last = total_len ss [] + Z.of_nat (length last).
-Proof.
-  induction ss as [|x ss IH].
-  - cbn [total_len fold_right length]. lia.
-  - unfold total_len in *. cbn [fold_right]. rewrite IH. lia.
-Qed.
-
 (* the decoded content has the length the sequences announce *)
 Lemma run_seqs_length hist ss last D :
   run_seqs hist ss last = Some D -> Z.of_nat (length D) = total_len ss last.
